@@ -121,6 +121,9 @@ pub struct Ctx {
     log: Option<std::fs::File>,
     pub replay: Option<(String, u64)>,
     pub only_sub: Option<String>,
+    /// continue after the case (sub, idx) of a shard run that died there
+    pub resume_after: Option<(String, u64)>,
+    resumed: bool,
     pub cur_sub: String,
     pub cur_idx: u64,
     pub verbose: bool,
@@ -155,6 +158,8 @@ impl Ctx {
             log,
             replay: None,
             only_sub: None,
+            resume_after: None,
+            resumed: false,
             cur_sub: String::new(),
             cur_idx: 0,
             verbose: false,
@@ -199,6 +204,16 @@ impl Ctx {
                 return;
             }
         }
+        let mut skip_upto: Option<u64> = None;
+        if let Some((rsub, ridx)) = &self.resume_after {
+            if !self.resumed {
+                if rsub != sub {
+                    return; // this whole sub-workload ran before the shard died
+                }
+                skip_upto = Some(*ridx);
+                self.resumed = true;
+            }
+        }
         self.cur_sub = sub.to_string();
         let hs = hash_str(sub);
         let hp = hash_str(&self.prop);
@@ -209,6 +224,11 @@ impl Ctx {
                 }
             } else if idx % self.nshards != self.shard {
                 continue;
+            }
+            if let Some(k) = skip_upto {
+                if idx as u64 <= k {
+                    continue;
+                }
             }
             self.cur_idx = idx as u64;
             let s = if enumerated { 0 } else { self.seed };
